@@ -21,11 +21,13 @@ def namespaces():
 
 
 def BOUNDS(tier):
-    return ("controller programs of <= %d operations over {add_task (with / without a follow-up submission from the task body), "
-            "set_thread_count(0..3), shutdown(cancel_pending True/False)} after set_thread_count(1..3); every interleaving with at most %d "
-            "pre-emptions (switches at blocking points are free); 1..2 workers quick, 1..3 thorough.  BUSY: every worker held by a long-running task, "
-            "then one of {resize 0/1/2, shutdown (cancel / keep), add} and one more operation, 1 pre-emption, 2 workers%s."
-            % ((2, 2, " (without 'resize to 0, then to 3', which is in the thorough tier)") if tier == "quick" else (3, 2, " and 3 workers (resize 0 -> 3 with 2 workers only)")))
+    return ("controller programs of <= 2 operations over {add_task (with / without a follow-up submission from the task body, long-running), release, "
+            "set_thread_count(0..3), shutdown(cancel_pending True/False)} after set_thread_count(1..2), every interleaving with at most 2 pre-emptions "
+            "(switches at blocking points are free)%s.  BUSY: every worker held by a long-running task, then one of {resize 0/1/2, shutdown (cancel / "
+            "keep), add} and one more operation, 1 pre-emption, %s."
+            % (("", "2 workers (without 'resize to 0, then to 3', which is in the thorough tier)") if tier == "quick" else
+               ("; programs of exactly 3 operations with 1 pre-emption (1..2 workers) and of <= 2 operations with 3 workers and 1 pre-emption",
+                "2 and 3 workers (resize 0 -> 3 with 2 workers only)")))
 
 
 HEAVY_FIRST = ("resize3:op1=1", "resize3", "add_follow")
@@ -33,11 +35,10 @@ OPS = ("add", "add_follow", "add_gated", "release", "resize0", "resize1", "resiz
 
 
 def jobs(tier):
-    nops, P = (2, 2) if tier == "quick" else (3, 2)
     js = []
     for w in (1, 2):
         for first in OPS:
-            js.append(dict(name="W%d:%s" % (w, first), workers=w, first=first, nops=nops, P=P))
+            js.append(dict(name="W%d:%s" % (w, first), workers=w, first=first, nops=2, P=2))
     # all workers busy with long-running tasks while the pool is resized / shut down twice
     for w in ((2,) if tier == "quick" else (2, 3)):
         for third in ("resize0", "resize1", "resize2", "shutdown_cancel", "shutdown_keep", "add"):
@@ -47,6 +48,17 @@ def jobs(tier):
     # five or more worker threads at once (all workers busy, resize to 0, then resize to 3) cost ~130 000 schedules: thorough tier, two workers only
     grow = ":resize0:op_last=%d" % OPS.index("resize3")
     js = [j for j in js if not (j["name"].endswith(grow) and (tier == "quick" or j["workers"] > 2))]
+    if tier == "thorough":
+        # programs of exactly three operations with one pre-emption (three operations with two pre-emptions ran into > 10 CPU-hours), and three
+        # workers with two operations
+        more = []
+        for w in (1, 2):
+            for first in OPS:
+                more.append(dict(name="W%d:%s:n3" % (w, first), workers=w, first=first, nops=3, P=1, force={"n": 2}))
+        for first in OPS:
+            more.append(dict(name="W3:%s" % first, workers=3, first=first, nops=2, P=1))
+        more = common.shard(more, "op1", len(OPS))
+        js += more
     return js
 
 
